@@ -318,6 +318,11 @@ func (s *Server[StateT]) handleWriteFile(ctx *Context[StateT]) error {
 		return fmt.Errorf("discard of unread file data failed: %w", discardErr)
 	}
 
+	// client went away in the middle of payload: request is incomplete, there is nobody to answer to
+	if limited, ok := data.(*io.LimitedReader); ok && limited.N > 0 {
+		return fmt.Errorf("file data to write is incomplete: %d bytes were not received: %w", limited.N, io.ErrUnexpectedEOF)
+	}
+
 	if err != nil {
 		return ctx.wr.SendWriteFileError()
 	}
